@@ -185,6 +185,23 @@ def runSched {σ : Type} (step : σ → Ev → Option σ) : σ → List Ev → O
     | none => none
     | some s' => runSched step s' es
 
+/-! ## the API path: the role state serves `ClientCmd::Scan` inline -/
+
+inductive Role where
+  | leader | follower | candidate | learner
+deriving Repr, DecidableEq
+
+/-- `push_client_cmd(ClientCmd::Scan(prefix, sender))`:
+    leader (leader_state.rs): `sender.send(ctx.state_machine().scan_prefix(&prefix))` — the engine's answer is
+    passed through untouched, whatever the leader's commit index is (entries committed but not yet applied are
+    neither in the entries nor covered by the revision);
+    every other role (role_state.rs default): `Err(failed_precondition("Not leader"))` = `none`. -/
+def roleScan (role : Role) (_commitIndex : Nat) (engineScan : List (Key × Val) × Nat) :
+    Option (List (Key × Val) × Nat) :=
+  match role with
+  | .leader => some engineScan
+  | _ => none
+
 /-! ## client side: resynchronisation from a scan + watch events -/
 
 /-- A watch event: one successful mutation (`revision` = entry index). -/
